@@ -6,6 +6,7 @@ CONSTANTS
   FrameCopy = TRUE
   DetailsFirst = FALSE
   TreeRule = "none"
+  BoxCache = "none"
   MaxCalls = 1000000
   MaxMoves = 1000000
   Witness = FALSE
